@@ -936,3 +936,14 @@ PROPS["C08"]['claim'] += (" AT HTML LEVEL on the composed model (GM.Props.C08E2E
 PROPS["C09"]["claim"] += (" AT HTML LEVEL (GM.Props.C09E2E): for an empty first part, convertCore (LF + '# h' + LF + LF + b) = convertCore ('# h' + LF) ++ "
     "convertCore b for every LF-free h and every b without '[' (heading_then_blocks_html; unconditional for plain-text content: "
     "heading_then_blocks_html_good_lines, _checked; in general given the named inline hypothesis InlineMoveStep); a non-empty first part at HTML level is open.")
+
+# ---- session 4, cmfrag round 3, e2e round 6 ----
+PROPS["C02"]["claim"] += (" Round 3 of cmfrag - the FULL UNION FRAGMENT (fragment21_conforms, fragment21_conforms_no_final_newline; on the spec model itself: "
+    "fragment21_conforms_spec): all five block kinds abutting where CommonMark allows, and every paragraph line and heading text a rich line mixing, in "
+    "any order, text in every licensed spelling, code spans, `*` and `_` emphasis and strong, inline links, images, URI autolinks and raw tags, with "
+    "backslash hard breaks between paragraph lines - one theorem that contains all earlier stages; and inside block quotes nested to any depth for "
+    "sources without '[', tab, CR and without a line ending in '-' or '=' (fragment22_conforms, fragment22_conforms_union, fragment23_conforms, through "
+    "quotesim2's wider class). 98 theorems; component cmfrag: 323k generated members of every stage per quick run through the real goldmark.")
+PROPS["C08"]['claim'] += (" The HTML-level theorems also in TOTAL form (convert_quote_prefix_total, _lists_total, _no_final_newline_total, _raw_leaves_total, "
+    "_good_lines_total, _checked_total): both conversions exist and are related, no 'converts' hypothesis left.")
+PROPS["C09"]["claim"] += (" TOTAL forms: heading_then_blocks_html_total, _good_lines_total, _checked_total.")
